@@ -20,6 +20,7 @@ PLAN = {
     "C03": {"level": "exploration", "units": [
         unit("loop", "TestC03", 500, 8000, replay="TestReplayC03", shrinktime="30s"),
         unit("loop", "TestC03Big", 2, 12, seed_off=700, shrinktime="20s"),
+        unit("loop", "TestC03Stuck", 120, 2500, seed_off=720, shrinktime="30s"),
         unit("expl", "TestC03Flood", 3, 8, replay="TestReplayC03Flood", seed_off=900, shrinktime="20s"),
         unit("sys", "TestC03Sys", 3, 20, replay="TestReplayC03Sys", seed_off=950, shrinktime="30s", workers={"quick": 8, "thorough": 16})]},
     "C04": {"level": "exploration", "units": [
